@@ -1,10 +1,12 @@
 package main
 
 import (
+	"encoding/json"
 	"fmt"
 	"math/rand"
 	"strings"
 
+	"verif/internal/proto"
 	"verif/internal/ref"
 	"verif/internal/run"
 	"verif/internal/term"
@@ -17,7 +19,7 @@ type c04 struct{}
 func (*c04) ID() string    { return "C04" }
 func (*c04) Level() string { return "exploration" }
 func (*c04) Rule() string {
-	return "a fixed list of catch/throw skeletons (throw directly / after k answers / in the continuation after catch exit / after backtracking into the catch goal; ball unifies, does not, or only with an outer catcher; ball sharing variables with goal and catcher; rethrow from Recovery; throw under \\+, findall, call/N, cut, nested catch; built-in errors in each position) plus seeded random compositions over {w(K) logging, m/1 n/1 generators, throw, built-in error calls, catch/3, ',', ';', \\+, findall, call, once, helper predicates with clause-level cut}. Engine and reference interpreter must agree on the event log (which goals ran, in order, with which bindings), the answer sequence and the final error (Formal only for error(Formal,_)). Non-trivial: the reference executed >=1 throw that crossed or matched >=1 catch frame; distinct by program+query hash."
+	return "a fixed list of catch/throw skeletons (throw directly / after k answers / in the continuation after catch exit / after backtracking into the catch goal; ball unifies, does not, or only with an outer catcher; ball sharing variables with goal and catcher; rethrow from Recovery; throw under \\+, findall, call/N, cut, nested catch; built-in errors in each position) plus 400 (thorough 4000) texts of 1-4 directives / initialization goals drawn from the skeletons run through ExecContext (event log up to the first uncaught ball, Exec error carrying it, no later goal), plus seeded random compositions over {w(K) logging, m/1 n/1 generators, throw, built-in error calls, catch/3, ',', ';', \\+, findall, call, once, helper predicates with clause-level cut}. Engine and reference interpreter must agree on the event log (which goals ran, in order, with which bindings), the answer sequence and the final error (Formal only for error(Formal,_)). Non-trivial: the reference executed >=1 throw that crossed or matched >=1 catch frame; distinct by program+query hash."
 }
 func (*c04) Assumptions() []string {
 	return []string{
@@ -331,10 +333,178 @@ func (c *c04) Generate(cx *Ctx, chunk int) []*Item {
 		t, nv, qv := parseQuery(q)
 		metas = append(metas, &DiffMeta{Program: prog, Query: t, NVars: nv, QVars: qv, Max: 20, Family: "random"})
 	}
-	return prepareDiffItems(metas, 60000, ref.Options{})
+	items := prepareDiffItems(metas, 60000, ref.Options{})
+	return append(items, c.execItems(cx, base)...)
+}
+
+// c04ExecMeta is one text run through Exec: goals as directives or initialization/1 goals, each executed like once/1;
+// the first goal that ends in an uncaught ball ends Exec with an error carrying it and no later goal runs.
+type c04ExecMeta struct {
+	Family    string   `json:"family"`
+	Text      string   `json:"text"`
+	ExpEvents []string `json:"exp_events"`
+	ExpErr    string   `json:"exp_err"` // canonical ball, "" = Exec returns nil
+	Crossed   bool     `json:"crossed"`
+	Goals     int      `json:"goals"`
+	ThrowAt   int      `json:"throw_at"` // index of the goal that throws, -1 = none
+}
+
+// execItems builds the Exec family from the fixed skeletons: every goal whose reference run either delivers a first
+// answer or ends in an uncaught ball before it (a failing goal is left out: what Exec does with it is not in the statement).
+func (c *c04) execItems(cx *Ctx, base []*term.Term) []*Item {
+	type goal struct {
+		text    string
+		events  []string
+		err     string
+		crossed bool
+		steps   int64
+	}
+	var ok, bad []goal
+	for _, q := range c04Fixed {
+		t, nv, qv := parseQuery(q)
+		d := &DiffMeta{Program: base, Query: t, NVars: nv, QVars: qv, Max: 1}
+		o, err := d.refRun(60000, ref.Options{})
+		if err != nil || o.M.Unsupported != "" || o.OutOfBudget || len(o.Events) == 0 {
+			continue
+		}
+		g := goal{text: term.Text(t, qvar), crossed: o.M.ThrowCrossed >= 1, steps: o.M.Steps}
+		for _, e := range o.Events[0] {
+			g.events = append(g.events, canonTuple([]*term.Term{e}))
+		}
+		switch {
+		case len(o.Answers) >= 1:
+			ok = append(ok, g)
+		case o.Err != nil:
+			g.err = canonTuple([]*term.Term{formalOf(o.Err)})
+			bad = append(bad, g)
+		}
+	}
+	if len(ok) == 0 || len(bad) == 0 {
+		cx.Note("exec family: no usable goals")
+		return nil
+	}
+	n := 400
+	if cx.Thorough() {
+		n = 4000
+	}
+	var items []*Item
+	for i := 0; i < n; i++ {
+		r := cx.Rng(fmt.Sprintf("c04/exec/%d", i))
+		ng := 1 + r.Intn(4)
+		throwAt := -1
+		if r.Intn(5) > 0 {
+			throwAt = r.Intn(ng)
+		}
+		init := r.Intn(3) > 0 // initialization/1 goals (run after the load, in order) or plain directives
+		m := c04ExecMeta{Family: "exec_directive", Goals: ng, ThrowAt: throwAt}
+		if init {
+			m.Family = "exec_initialization"
+		}
+		var sb strings.Builder
+		var steps int64
+		stopped := false
+		for j := 0; j < ng; j++ {
+			g := ok[r.Intn(len(ok))]
+			if j == throwAt {
+				g = bad[r.Intn(len(bad))]
+			}
+			if init {
+				sb.WriteString(":- initialization((" + g.text + ")).\n")
+			} else {
+				sb.WriteString(":- " + g.text + ".\n")
+			}
+			if j%2 == 1 {
+				sb.WriteString(fmt.Sprintf("c04_fact_%d(%d).\n", j, j))
+			}
+			if stopped {
+				continue
+			}
+			steps += g.steps
+			m.ExpEvents = append(m.ExpEvents, g.events...)
+			m.Crossed = m.Crossed || g.crossed
+			if g.err != "" {
+				m.ExpErr = g.err
+				stopped = true
+			}
+		}
+		m.Text = sb.String()
+		cs := &proto.Case{Kind: "prolog", Setup: []string{programText(base)}}
+		cs.Steps = []proto.Step{{Exec: m.Text, StepBudget: 2000*steps + 200000}}
+		meta, _ := json.Marshal(&m)
+		items = append(items, &Item{Cases: []*proto.Case{cs}, Meta: meta})
+	}
+	return items
+}
+
+func (c *c04) judgeExec(m *c04ExecMeta, out *run.Outcome) Verdict {
+	v := Verdict{Extra: map[string]int64{"family_" + m.Family: 1}}
+	v.Sample = map[string]interface{}{"text": m.Text, "expected_events": m.ExpEvents, "expected_error": m.ExpErr}
+	if out.Crash != nil {
+		if out.Crash.Hung {
+			v.Status, v.Msg = Inconclusive, "watchdog fired (wall clock) — no logical evidence"
+			return v
+		}
+		v.Status, v.Msg = Violated, "worker process died: "+out.Crash.Exit+"\n"+firstLines(out.Crash.Stderr, 12)
+		return v
+	}
+	res := out.Res
+	if res.Fatal != "" || len(res.Steps) < 1 {
+		v.Status, v.Msg = Inconclusive, "worker: "+res.Fatal
+		return v
+	}
+	for i, e := range res.Setup {
+		if e != nil {
+			v.Status, v.Msg = Violated, fmt.Sprintf("loading the program failed (setup %d): %s", i, e.Text)
+			return v
+		}
+	}
+	st := res.Steps[0]
+	if st.BudgetHit {
+		v.Status, v.Msg = Inconclusive, "step budget exhausted"
+		if res.Hooks {
+			v.Status, v.Msg = Violated, fmt.Sprintf("Exec did not return within %d steps | text: %s", st.Steps, oneLine(m.Text))
+		}
+		return v
+	}
+	var gotEv []string
+	for _, e := range st.Events {
+		if e.Tag != "$answer" && e.T != nil {
+			gotEv = append(gotEv, canonTuple([]*term.Term{e.T}))
+		}
+	}
+	gotErr := ""
+	switch {
+	case st.Err != nil && st.Err.Exception != nil:
+		gotErr = canonTuple([]*term.Term{formalOf(st.Err.Exception)})
+	case st.Err != nil:
+		gotErr = "go error " + st.Err.Text
+	}
+	v.Sample.(map[string]interface{})["observed_events"] = gotEv
+	v.Sample.(map[string]interface{})["observed_error"] = gotErr
+	v.NonTrivial = m.Crossed
+	v.Extra["exec_goals_run"] = int64(m.Goals)
+	if m.ExpErr != "" {
+		v.Extra["uncaught_errors_compared"] = 1
+		if m.ThrowAt < m.Goals-1 {
+			v.Extra["exec_throw_before_later_goals"] = 1
+		}
+	}
+	switch {
+	case gotErr != m.ExpErr:
+		v.Status, v.Msg = Violated, fmt.Sprintf("Exec: expected error %q, observed %q | text: %s", m.ExpErr, gotErr, oneLine(m.Text))
+	case strings.Join(gotEv, "\n") != strings.Join(m.ExpEvents, "\n"):
+		v.Status, v.Msg = Violated, fmt.Sprintf("Exec: event logs differ: expected %v, observed %v | text: %s", m.ExpEvents, gotEv, oneLine(m.Text))
+	default:
+		v.Status = Held
+	}
+	return v
 }
 
 func (c *c04) Judge(cx *Ctx, it *Item, outs []*run.Outcome) Verdict {
+	var em c04ExecMeta
+	if err := decodeMeta(it, &em); err == nil && strings.HasPrefix(em.Family, "exec_") {
+		return c.judgeExec(&em, outs[0])
+	}
 	var m c01Meta
 	if err := decodeMeta(it, &m); err != nil {
 		return Verdict{Status: Inconclusive, Msg: err.Error()}
